@@ -1,6 +1,6 @@
 (* CoreLocal6.v -- one-step theorems about the parts of the core model added last: task sources with their thread,
    path watches, stale readiness inside a poll batch. *)
-From LM Require Import Base CoreTypes CoreModel CoreExec CoreLocal.
+From LM Require Import Base CoreTypes CoreModel CoreExec CoreLocal CoreInv.
 
 Section Local6.
   Variable sc : script.
@@ -50,4 +50,34 @@ Section Local6.
     w_mods (exec_env w (CFire m KPath key)) = w_mods w /\ w_tls (exec_env w (CFire m KPath key)) = w_tls w /\
     w_trace (exec_env w (CFire m KPath key)) = w_trace w /\ w_heap (exec_env w (CFire m KPath key)) = w_heap w.
   Proof. unfold exec_env, set_srcs. cbn. auto. Qed.
+
+  (* C17, two steps composed: after an accepted become(h) the NEXT handler invocation of that module runs h; after an
+     accepted unbecome it runs the handler below the removed one, or the registration-time handler (id 0) when none is left.
+     The world in which the delivery happens is exactly the one the call returned (ret (emit ...)). *)
+  Lemma get_mod_ret_emit_upd w m f mr t z :
+    get_mod w m = Some mr -> get_mod (ret (emit (upd_mod w m f) t) z) m = Some (f mr).
+  Proof. intros H. unfold ret. change (get_mod (upd_mod w m f) m = Some (f mr)). apply CoreInv.get_upd_mod_same. exact H. Qed.
+
+  Theorem become_then_next_invocation_uses_it cur w m h mr w1 e evts :
+    uref_count w m <> 0 -> mod_assert_state w m [MRunning] = None -> consume_token w m = Some w1 -> get_mod w1 m = Some mr ->
+    exists (finish : world -> world) (pre : world),
+      call_pubsub_cb run_cb (exec sc run_cb cur w (CBecome m h)) m (e :: evts) =
+      finish (fst (run_cb pre m CbEvt h (e :: evts))).
+  Proof.
+    intros Hu Ha Ht Hm. destruct (become_pushes sc run_cb cur w m h mr w1 Hu Ha Ht Hm) as (t & a & E). rewrite E.
+    destruct (handler_is_top run_cb _ m _ e evts (get_mod_ret_emit_upd w1 m (mod_with_recvs (h :: m_recvs mr)) mr (TMark t a) 0 Hm)) as (fin & Hf).
+    exists fin. eexists. rewrite Hf. reflexivity.
+  Qed.
+
+  Theorem unbecome_then_next_invocation_uses_previous cur w m mr w1 top rest e evts :
+    uref_count w m <> 0 -> mod_assert_state w m [MRunning] = None -> consume_token w m = Some w1 -> get_mod w1 m = Some mr ->
+    m_recvs mr = top :: rest ->
+    exists (finish : world -> world) (pre : world),
+      call_pubsub_cb run_cb (exec sc run_cb cur w (CUnbecome m)) m (e :: evts) =
+      finish (fst (run_cb pre m CbEvt (hd 0 rest) (e :: evts))).
+  Proof.
+    intros Hu Ha Ht Hm Hr. destruct (unbecome_pops sc run_cb cur w m mr w1 Hu Ha Ht Hm) as (t & a & E). rewrite E, Hr.
+    destruct (handler_is_top run_cb _ m _ e evts (get_mod_ret_emit_upd w1 m (mod_with_recvs rest) mr (TMark t a) 0 Hm)) as (fin & Hf).
+    exists fin. eexists. rewrite Hf. reflexivity.
+  Qed.
 End Local6.
